@@ -25,6 +25,12 @@ import ChemModel.Model.Units
 namespace ChemModel.PhysProps
 open ChemModel ChemModel.Gen
 
+/-- entry of a signature record `…Sig` emitted by pyfn2lean (defaults of the Python parameters, `@backend`, `@warn`, …) -/
+def sigGet (sig : List (String × String)) (k : String) : Option String :=
+  match sig with
+  | [] => none
+  | (k', v) :: r => if k' == k then some v else sigGet r k
+
 /-! ## L1: scale-factor semantics -/
 instance : HasToUnitless Float := ⟨id⟩
 instance : HasToUnitless Rat := ⟨id⟩
@@ -51,19 +57,14 @@ def sulfuricAcidDensity (w T : α) : α :=
 
 /-- L1 reading of `sulfuric_acid_density(w, T, units=u)` (as repaired: `t_K = to_unitless(t / K)` before `float`):
     all arguments are SI values / scale factors. -/
-def sulfuricAcidDensityU [HasToUnitless α] (w T uK um ukg : α) : α :=
-  tableSum w (sulfuricTU w T uK um ukg) sulfuric_data 0 * sulfuricUnitU w T uK um ukg
+def sulfuricAcidDensityU [HasToUnitless α] (w T uK ukg um : α) : α :=
+  tableSum w (sulfuricTU w T uK ukg um) sulfuric_data 0 * sulfuricUnitU w T uK ukg um
 
 end Sulfuric
 
-/-- guard: the tail of `sulfuric_acid_density` that `tableSum` mirrors -/
-theorem sulfuric_tail_src_is : sulfuricTailSrc =
-    ["t_arr = np.array([float(t_K) ** j for j in range(5)]).reshape((1, 5))",
-     "w_arr = np.array([w ** i for i in range(11)]).reshape((11, 1))",
-     "return np.sum(t_arr * w_arr * _data) * kg / m3"] := by decide
 
-/-- guard: `_data` is an 11 × 5 array (the ranges `range(11)`, `range(5)` of the source) -/
-theorem sulfuric_data_shape : (sulfuric_data (α := Rat)).map List.length = List.replicate 11 5 := by decide
+
+
 
 /-! ## lg_solubility_ratio (Schumpe 1993) -/
 section Schumpe
@@ -105,10 +106,7 @@ def lgSolubilityWarns (electrolytes : List (String × α)) : Bool :=
 
 end Schumpe
 
-theorem schumpe_body_src_is : schumpeBodySrc =
-    ["if units is None:\n    M = 1\nelse:\n    M = units.molar",
-     "if warn and 'F-' in electrolytes:\n    warnings.warn('In Schumpe 1993: data for fluoride uncertain.')",
-     "return sum([(p_gas_rM[gas] / M + p_ion_rM[k] / M) * v for k, v in electrolytes.items()])"] := by decide
+
 
 /-! ## density_from_concentration -/
 section Dfc
@@ -142,8 +140,7 @@ def densityFromConcentration (conc T : α) : Except String α :=
 
 end Dfc
 
-theorem dfc_loop_src_is : dfcLoopSrc =
-    "while atol < abs(delta_rho):\n    new_rho = rho_cb(conc * molar_mass / rho, T, units=units, warn=warn, **kwargs)\n    delta_rho = new_rho - rho\n    rho = new_rho\n    iter_idx += 1\n    if iter_idx > maxiter:\n        raise NoConvergence('maxiter exceeded')" := rfl
+
 
 /-! ## Henry -/
 section Henry
@@ -183,12 +180,10 @@ def Henry.getPU (h : Henry α) (T c uK : α) : α := c / h.callU T uK
 
 end Henry
 
-theorem henry_call_src_is : henryCallSrc =
-    ("Henry_H_at_T(T, self.Hcp, self.Tderiv, self.T0, units=units, backend=backend)", ["self", "T", "units", "backend"]) := by decide
-theorem henry_getC_src_is : henryGetCSrc = ("P * self(T, **kwargs)", ["self", "T", "P"]) := by decide
-theorem henry_getP_src_is : henryGetPSrc = ("c / self(T, **kwargs)", ["self", "T", "c"]) := by decide
-theorem henry_with_units_call_src_is : henryWithUnitsCallSrc =
-    ("super(HenryWithUnits, self).__call__(T, units, backend)", ["self", "T", "units", "backend"]) := by decide
+
+
+
+
 
 /-! ## L2: the quantity algebra (`quantities`, modelled) -/
 section UVsec
@@ -291,11 +286,60 @@ def UV.si : UV α → Option (α × Units.Dims)
   | .num x => some (x, Units.Dims.zero)
   | .qty q => some (q.mag * q.unit.factor, q.unit.dims)
 
-/-- L2 reading of `sulfuric_acid_density(w, T, units=u)`: `float(t_K)` of the pure number `to_unitless(t / K)` -/
-def sulfuricAcidDensityUV (w : α) (T uK um ukg : UV α) : UV α :=
-  match (sulfuricTU (UV.num w) T uK um ukg).float with
+/-! ### variants of the quantity algebra (type synonyms; the arithmetic is shared)
+* `UVm α`   — `backend = math` (nernst_potential): `math.log(x)` is `log(float(x))`, the raw magnitude of a quantity, never an error;
+* `UVraw α` / `UVmraw α` — the same algebras in which `to_unitless` does NOTHING: instantiating a generated unit-mode text at these types
+  is "the same code with the `to_unitless` calls removed" (the text before the repairs); used by the `…_needs_to_unitless_witness` theorems. -/
+def UVm (α : Type) := UV α
+def UVraw (α : Type) := UV α
+def UVmraw (α : Type) := UV α
+
+/-- `math.log(x)` / `math.exp(x)`: applied to `float(x)` -/
+def UV.mathFn (f : α → α) : UV α → UV α
+  | .err e => .err e
+  | .num x => .num (f x)
+  | .qty q => .num (f q.mag)
+
+instance : Add (UVm α) := ⟨UV.addLike (· + ·)⟩
+instance : Sub (UVm α) := ⟨UV.addLike (· - ·)⟩
+instance : Mul (UVm α) := ⟨UV.mul⟩
+instance : Div (UVm α) := ⟨UV.div⟩
+instance : Neg (UVm α) := ⟨UV.neg⟩
+instance : NatCast (UVm α) := ⟨fun n => UV.num ((n : Nat) : α)⟩
+instance [HasLog α] : HasLog (UVm α) := ⟨UV.mathFn HasLog.log⟩
+instance : HasToUnitless (UVm α) := ⟨UV.toUnitless⟩
+
+instance : Add (UVmraw α) := ⟨UV.addLike (· + ·)⟩
+instance : Sub (UVmraw α) := ⟨UV.addLike (· - ·)⟩
+instance : Mul (UVmraw α) := ⟨UV.mul⟩
+instance : Div (UVmraw α) := ⟨UV.div⟩
+instance : Neg (UVmraw α) := ⟨UV.neg⟩
+instance : NatCast (UVmraw α) := ⟨fun n => UV.num ((n : Nat) : α)⟩
+instance [HasLog α] : HasLog (UVmraw α) := ⟨UV.mathFn HasLog.log⟩
+instance : HasToUnitless (UVmraw α) := ⟨id⟩
+
+instance : Add (UVraw α) := ⟨UV.addLike (· + ·)⟩
+instance : Sub (UVraw α) := ⟨UV.addLike (· - ·)⟩
+instance : Mul (UVraw α) := ⟨UV.mul⟩
+instance : Div (UVraw α) := ⟨UV.div⟩
+instance : Neg (UVraw α) := ⟨UV.neg⟩
+instance : NatCast (UVraw α) := ⟨fun n => UV.num ((n : Nat) : α)⟩
+instance [HasExp α] : HasExp (UVraw α) := ⟨UV.transc HasExp.exp⟩
+instance [HasLog α] : HasLog (UVraw α) := ⟨UV.transc HasLog.log⟩
+instance [HasRPow α] : HasRPow (UVraw α) := ⟨UV.rpow⟩
+instance : HasToUnitless (UVraw α) := ⟨id⟩
+
+/-- `sulfuric_acid_density` with units with the `to_unitless` call removed (pre-repair text): `float(t / K)` of the raw quantity -/
+def sulfuricAcidDensityUVraw (w : α) (T uK ukg um : UV α) : UV α :=
+  match UV.float (sulfuricTU (α := UVraw α) (UV.num w) T uK ukg um) with
   | .error e => .err e
-  | .ok t => UV.num (tableSum w t sulfuric_data 0) * sulfuricUnitU (UV.num w) T uK um ukg
+  | .ok t => UV.mul (UV.num (tableSum w t sulfuric_data 0)) (sulfuricUnitU (α := UVraw α) (UV.num w) T uK ukg um)
+
+/-- L2 reading of `sulfuric_acid_density(w, T, units=u)`: `float(t_K)` of the pure number `to_unitless(t / K)` -/
+def sulfuricAcidDensityUV (w : α) (T uK ukg um : UV α) : UV α :=
+  match (sulfuricTU (UV.num w) T uK ukg um).float with
+  | .error e => .err e
+  | .ok t => UV.num (tableSum w t sulfuric_data 0) * sulfuricUnitU (UV.num w) T uK ukg um
 
 end UVsec
 
